@@ -555,7 +555,11 @@ func init() {
 
 func (ex *Exec) lowerASCII(b *Term) *Term {
 	isUp := ex.C.And(ex.C.Cmp(OpULe, ex.C.Const(8, 'A'), b), ex.C.Cmp(OpULe, b, ex.C.Const(8, 'Z')))
-	return ex.C.Ite(isUp, ex.C.Bin(OpAdd, b, ex.C.Const(8, 32)), b)
+	r := ex.C.Ite(isUp, ex.C.Bin(OpAdd, b, ex.C.Const(8, 32)), b)
+	if ex.asciiKnown[b] || (b.IsConst() && b.Val < 0x80) {
+		ex.asciiKnown[r] = true // lowering an ASCII byte gives an ASCII byte
+	}
+	return r
 }
 
 // needASCII restricts the path to b < 0x80 and records the assumption; a
@@ -567,10 +571,14 @@ func (ex *Exec) needASCII(b *Term, who string) {
 		}
 		return
 	}
+	if ex.asciiKnown[b] {
+		return
+	}
 	c := ex.C.Cmp(OpULt, b, ex.C.Const(8, 0x80))
 	if ex.speculating > 0 {
 		panic(specAbort{})
 	}
+	defer func() { ex.asciiKnown[b] = true }()
 	if !ex.branch(c) {
 		ex.noteAssumption(who + ": inputs with bytes >= 0x80 are outside the ASCII model (paths cut)")
 		panic(pathAbort{"non-ascii:" + who})
